@@ -6,7 +6,7 @@ set -u
 export GOFLAGS=-mod=mod GOPROXY=off GOSUMDB=off GOTOOLCHAIN=local
 WT="$1"; M="$2"; PROP="$3"; TIER="${4:-quick}"
 cd "$WT" || exit 2
-git checkout -q -- . ; rm -f demo_test.go
+git checkout -q -- . ; rm -f demo_test.go; git checkout -q --detach $(git -C /repo rev-parse HEAD) 2>/dev/null || echo "could not move worktree to /repo HEAD"
 demo=""
 [ -f "$M/demo_test.go" ] && demo="$M/demo_test.go"
 echo "== clean tree: demo"
